@@ -153,7 +153,8 @@ class Poly:
             return None
         if k == 'DeclRefExpr':
             init = self.single(ref_decl(n))
-            if init is not None:
+            # a pointer obtained from a call (an allocation, unique_ptr::get(), ...) is a base of its own
+            if init is not None and not any(c.get('kind') in ('CallExpr', 'CXXMemberCallExpr', 'CXXConstructExpr', 'CXXNewExpr') for c in walk(init)):
                 r = self.pointer(init, depth + 1)
                 if r is not None:
                     return r
